@@ -1,9 +1,15 @@
 package h
 
 import (
+	abci "github.com/tendermint/tendermint/abci/types"
+	"github.com/MinterTeam/minter-go-node/coreV2/types"
 	"hash"
 
 	"golang.org/x/crypto/sha3"
 )
 
 func newKeccak() hash.Hash { return sha3.NewLegacyKeccak256() }
+
+type typesAppState = types.AppState
+
+var abciInfoReq = abci.RequestInfo{}
